@@ -365,6 +365,34 @@ def part_constructors(run, rng, ncases, quick, t_end):
             elif what == "hartree":
                 cond = random_condition(rng, basis, k)
                 qn_idx = None if rng.random() < 0.4 else int(rng.integers(0, len(basis)))
+                # malformed stream: a coefficient vector with a SMALL admixture of a local state of another charge.  The
+                # constructor must refuse it (or at least not hand back a state that leaks out of its declared sector)
+                if rng.random() < 0.3:
+                    cands = [b for b in basis if b.nbas > 1 and len({tuple(x) for x in L.sigmaqn_of(b, k)}) > 1]
+                    if cands:
+                        b = cands[int(rng.integers(len(cands)))]
+                        sq = L.sigmaqn_of(b, k)
+                        main = int(rng.integers(b.nbas))
+                        others = [j for j in range(b.nbas) if not np.array_equal(sq[j], sq[main])]
+                        eps = float(rng.choice([3e-2, 3e-3, 1e-3, 1e-4, 1e-6]))
+                        vec = np.zeros(b.nbas)
+                        vec[main] = np.sqrt(1 - eps ** 2)
+                        vec[others[int(rng.integers(len(others)))]] = eps
+                        bad_cond = dict(cond)
+                        bad_cond[b.dofs[0]] = vec.tolist()
+                        n_eval += 1
+                        try:
+                            bad = Mps.hartree_product_state(model, dict(bad_cond), qn_idx=qn_idx)
+                        except Exception as e:
+                            run.count(f"ctor:hartree:cross-sector-vector:rejected:{type(e).__name__}")
+                            bad = None
+                        if bad is not None:
+                            run.count("ctor:hartree:cross-sector-vector:accepted")
+                            probs = check_chain(bad)      # against the sector the state itself declares
+                            if probs:
+                                run.violation("hartree_product_state:cross-sector-vector-accepted:" + short(probs),
+                                              dict(replay, cond={str(a): bb for a, bb in bad_cond.items()}, qn_idx=qn_idx, admixture=eps,
+                                                   problems=probs, what="a local coefficient vector mixing two charges was accepted; the state leaks out of its declared sector"))
                 try:
                     mps = Mps.hartree_product_state(model, dict(cond), qn_idx=qn_idx)
                 except Exception as e:
